@@ -16,32 +16,35 @@ theorem addEntry_some (es : List (Entry H)) (e : Entry H) (h : hasId es e.id = f
   simp [addEntry, h]
 
 /-- the three ways `apply_plan` under a given id ends -/
-theorem applyWithId_cases (ops : Ops Tree Plan Backup H) (w : World Tree Plan Backup H) (id : EId H) (p : Plan) :
-    ((applyWithId ops w id p).2 = .ok ∧ hasId w.entries id = false ∧
-      (applyWithId ops w id p).1.entries = w.entries ++ [{ id := id, revertOf := none }] ∧
-      ∃ t' b, ops.apply w.tree p = .ok t' b ∧ (applyWithId ops w id p).1.tree = t') ∨
-    ((applyWithId ops w id p).2 = .rejected ∧ (applyWithId ops w id p).1 = w) ∨
-    ((applyWithId ops w id p).2 = .failed ∧ (applyWithId ops w id p).1.entries = w.entries) := by
+theorem applyWithId_cases (cfg : Cfg) (ops : Ops Tree Plan Backup H) (w : World Tree Plan Backup H) (id : EId H) (p : Plan) :
+    ((applyWithId cfg ops w id p).2 = .ok ∧ hasId w.entries id = false ∧
+      (applyWithId cfg ops w id p).1.entries = w.entries ++ [{ id := id, revertOf := none }] ∧
+      ∃ t' b, ops.apply w.tree p = .ok t' b ∧ (applyWithId cfg ops w id p).1.tree = t') ∨
+    ((applyWithId cfg ops w id p).2 = .rejected ∧ (applyWithId cfg ops w id p).1 = w) ∨
+    ((applyWithId cfg ops w id p).2 = .failed ∧ (applyWithId cfg ops w id p).1.entries = w.entries) := by
   unfold applyWithId
-  cases h : ops.apply w.tree p with
-  | rejected => simp
-  | partly t' => simp
-  | ok t' b =>
-    by_cases hd : hasId w.entries id = true
-    · simp [addEntry, hd]
-    · have hd' : hasId w.entries id = false := by simpa using hd
-      simp [addEntry, hd']
+  by_cases he : (cfg.earlyDupCheck && hasId w.entries id) = true
+  · simp only [he, if_true]; simp
+  · simp only [he]
+    cases h : ops.apply w.tree p with
+    | rejected => simp
+    | partly t' => simp
+    | ok t' b =>
+      by_cases hd : hasId w.entries id = true
+      · simp [addEntry, hd]
+      · have hd' : hasId w.entries id = false := by simpa using hd
+        simp [addEntry, hd']
 
-theorem stepRename_cases (ops : Ops Tree Plan Backup H) (w : World Tree Plan Backup H) (s r : Bytes) :
-    ((stepRename ops w s r).2 = .ok ∧ hasId w.entries (.plan (ops.hash (s ++ r) w.clock)) = false ∧
-      (stepRename ops w s r).1.entries = w.entries ++ [{ id := .plan (ops.hash (s ++ r) w.clock), revertOf := none }]) ∨
-    (((stepRename ops w s r).2 = .rejected ∨ (stepRename ops w s r).2 = .noop) ∧ (stepRename ops w s r).1 = w) ∨
-    ((stepRename ops w s r).2 = .failed ∧ (stepRename ops w s r).1.entries = w.entries) := by
+theorem stepRename_cases (cfg : Cfg) (ops : Ops Tree Plan Backup H) (w : World Tree Plan Backup H) (s r : Bytes) :
+    ((stepRename cfg ops w s r).2 = .ok ∧ hasId w.entries (.plan (ops.hash (s ++ r) w.clock)) = false ∧
+      (stepRename cfg ops w s r).1.entries = w.entries ++ [{ id := .plan (ops.hash (s ++ r) w.clock), revertOf := none }]) ∨
+    (((stepRename cfg ops w s r).2 = .rejected ∨ (stepRename cfg ops w s r).2 = .noop) ∧ (stepRename cfg ops w s r).1 = w) ∨
+    ((stepRename cfg ops w s r).2 = .failed ∧ (stepRename cfg ops w s r).1.entries = w.entries) := by
   unfold stepRename
   by_cases he : ops.isEmpty (ops.scan w.tree s r) = true
   · simp [he]
   · simp only [he]
-    rcases applyWithId_cases ops w (.plan (ops.hash (s ++ r) w.clock)) (ops.scan w.tree s r) with h | h | h
+    rcases applyWithId_cases cfg ops w (.plan (ops.hash (s ++ r) w.clock)) (ops.scan w.tree s r) with h | h | h
     · exact Or.inl ⟨h.1, h.2.1, h.2.2.1⟩
     · exact Or.inr (Or.inl ⟨Or.inl h.1, h.2⟩)
     · exact Or.inr (Or.inr h)
@@ -88,71 +91,74 @@ theorem stepUndo_cases (ops : Ops Tree Plan Backup H) (w : World Tree Plan Backu
                   simp [addEntry, hd']
                   exact ⟨e, hf, h1', h2'⟩
 
-theorem stepRedo_cases (ops : Ops Tree Plan Backup H) (w : World Tree Plan Backup H) (t : Target H) :
-    ((stepRedo ops w t).2 = .ok ∧ ∃ i, resolve w.entries false t = some i ∧ hasId w.entries i = true ∧
+theorem stepRedo_cases (cfg : Cfg) (ops : Ops Tree Plan Backup H) (w : World Tree Plan Backup H) (t : Target H) :
+    ((stepRedo cfg ops w t).2 = .ok ∧ ∃ i, resolve w.entries false t = some i ∧ hasId w.entries i = true ∧
       hasRevertOf w.entries i = true ∧ hasId w.entries (.redo i w.clock) = false ∧
-      (stepRedo ops w t).1.entries = w.entries ++ [{ id := .redo i w.clock, revertOf := none }]) ∨
-    ((stepRedo ops w t).2 = .rejected ∧ (stepRedo ops w t).1 = w) ∨
-    ((stepRedo ops w t).2 = .failed ∧ (stepRedo ops w t).1.entries = w.entries) := by
+      (stepRedo cfg ops w t).1.entries = w.entries ++ [{ id := .redo i w.clock, revertOf := none }]) ∨
+    ((stepRedo cfg ops w t).2 = .rejected ∧ (stepRedo cfg ops w t).1 = w) ∨
+    ((stepRedo cfg ops w t).2 = .failed ∧ (stepRedo cfg ops w t).1.entries = w.entries) := by
   cases hr : resolve w.entries false t with
   | none =>
-    have heq : stepRedo ops w t = (w, .rejected) := by unfold stepRedo; simp [hr]
+    have heq : stepRedo cfg ops w t = (w, .rejected) := by unfold stepRedo; simp [hr]
     rw [heq]; simp
   | some i =>
     by_cases h1 : hasId w.entries i = true
     · by_cases h2 : hasRevertOf w.entries i = true
-      · cases hp : lookup w.plans i with
-        | none =>
-          have heq : stepRedo ops w t = (w, .rejected) := by unfold stepRedo; simp [hr, h1, h2, hp]
+      · by_cases h3 : (cfg.redoOnce && hasRedoOf w.entries i) = true
+        · have heq : stepRedo cfg ops w t = (w, .rejected) := by unfold stepRedo; simp only [hr, h1, h2, h3]; simp
           rw [heq]; simp
-        | some p =>
-          have heq : stepRedo ops w t = applyWithId ops w (.redo i w.clock) p := by
-            unfold stepRedo; simp [hr, h1, h2, hp]
+        · cases hp : lookup w.plans i with
+          | none =>
+            have heq : stepRedo cfg ops w t = (w, .rejected) := by unfold stepRedo; simp only [hr, h1, h2, h3, hp]; simp
+            rw [heq]; simp
+          | some p =>
+          have heq : stepRedo cfg ops w t = applyWithId cfg ops w (.redo i w.clock) p := by
+            unfold stepRedo; simp only [hr, h1, h2, h3, hp]; simp
           rw [heq]
-          rcases applyWithId_cases ops w (.redo i w.clock) p with h | h | h
+          rcases applyWithId_cases cfg ops w (.redo i w.clock) p with h | h | h
           · exact Or.inl ⟨h.1, i, rfl, h1, h2, h.2.1, h.2.2.1⟩
           · exact Or.inr (Or.inl h)
           · exact Or.inr (Or.inr h)
-      · have heq : stepRedo ops w t = (w, .rejected) := by unfold stepRedo; simp [hr, h1, h2]
+      · have heq : stepRedo cfg ops w t = (w, .rejected) := by unfold stepRedo; simp [hr, h1, h2]
         rw [heq]; simp
-    · have heq : stepRedo ops w t = (w, .rejected) := by unfold stepRedo; simp [hr, h1]
+    · have heq : stepRedo cfg ops w t = (w, .rejected) := by unfold stepRedo; simp [hr, h1]
       rw [heq]; simp
 
 /-- summary used by the run-level inductions -/
-theorem step_cases (ops : Ops Tree Plan Backup H) (w : World Tree Plan Backup H) (c : Cmd H) :
-    ((step ops w c).2 = .ok ∧ ∃ e, (step ops w c).1.entries = w.entries ++ [e] ∧ hasId w.entries e.id = false) ∨
-    ((step ops w c).2 ≠ .ok ∧ (step ops w c).1.entries = w.entries) := by
+theorem step_cases (cfg : Cfg) (ops : Ops Tree Plan Backup H) (w : World Tree Plan Backup H) (c : Cmd H) :
+    ((step cfg ops w c).2 = .ok ∧ ∃ e, (step cfg ops w c).1.entries = w.entries ++ [e] ∧ hasId w.entries e.id = false) ∨
+    ((step cfg ops w c).2 ≠ .ok ∧ (step cfg ops w c).1.entries = w.entries) := by
   cases c with
   | rename s r =>
-    rcases stepRename_cases ops w s r with h | h | h
+    rcases stepRename_cases cfg ops w s r with h | h | h
     · exact Or.inl ⟨h.1, _, h.2.2, h.2.1⟩
-    · refine Or.inr ⟨?_, by rw [show step ops w (.rename s r) = stepRename ops w s r from rfl, h.2]⟩
+    · refine Or.inr ⟨?_, by rw [show step cfg ops w (.rename s r) = stepRename cfg ops w s r from rfl, h.2]⟩
       rcases h.1 with h1 | h1 <;> simp [step, h1]
     · exact Or.inr ⟨by simp [step, h.1], h.2⟩
   | undo t =>
     rcases stepUndo_cases ops w t with h | h | h
     · obtain ⟨h1, i, e, _, _, _, _, hd, he⟩ := h
       exact Or.inl ⟨h1, _, he, hd⟩
-    · exact Or.inr ⟨by simp [step, h.1], by rw [show step ops w (.undo t) = stepUndo ops w t from rfl, h.2]⟩
+    · exact Or.inr ⟨by simp [step, h.1], by rw [show step cfg ops w (.undo t) = stepUndo ops w t from rfl, h.2]⟩
     · exact Or.inr ⟨by simp [step, h.1], h.2⟩
   | redo t =>
-    rcases stepRedo_cases ops w t with h | h | h
+    rcases stepRedo_cases cfg ops w t with h | h | h
     · obtain ⟨h1, i, _, _, _, hd, he⟩ := h
       exact Or.inl ⟨h1, _, he, hd⟩
-    · exact Or.inr ⟨by simp [step, h.1], by rw [show step ops w (.redo t) = stepRedo ops w t from rfl, h.2]⟩
+    · exact Or.inr ⟨by simp [step, h.1], by rw [show step cfg ops w (.redo t) = stepRedo cfg ops w t from rfl, h.2]⟩
     · exact Or.inr ⟨by simp [step, h.1], h.2⟩
   | tick => exact Or.inr ⟨by simp [step], rfl⟩
 
-theorem step_appends (ops : Ops Tree Plan Backup H) (w : World Tree Plan Backup H) (c : Cmd H) :
-    ((step ops w c).2 = .ok ∧ AppendsOne w.entries (step ops w c).1.entries) ∨
-    ((step ops w c).2 ≠ .ok ∧ (step ops w c).1.entries = w.entries) := by
-  rcases step_cases ops w c with h | h
+theorem step_appends (cfg : Cfg) (ops : Ops Tree Plan Backup H) (w : World Tree Plan Backup H) (c : Cmd H) :
+    ((step cfg ops w c).2 = .ok ∧ AppendsOne w.entries (step cfg ops w c).1.entries) ∨
+    ((step cfg ops w c).2 ≠ .ok ∧ (step cfg ops w c).1.entries = w.entries) := by
+  rcases step_cases cfg ops w c with h | h
   · exact Or.inl ⟨h.1, h.2⟩
   · exact Or.inr h
 
-theorem step_fresh (ops : Ops Tree Plan Backup H) (w : World Tree Plan Backup H) (c : Cmd H) (e : Entry H)
-    (h : (step ops w c).1.entries = w.entries ++ [e]) : hasId w.entries e.id = false := by
-  rcases step_cases ops w c with ⟨_, e', he, hf⟩ | ⟨_, he⟩
+theorem step_fresh (cfg : Cfg) (ops : Ops Tree Plan Backup H) (w : World Tree Plan Backup H) (c : Cmd H) (e : Entry H)
+    (h : (step cfg ops w c).1.entries = w.entries ++ [e]) : hasId w.entries e.id = false := by
+  rcases step_cases cfg ops w c with ⟨_, e', he, hf⟩ | ⟨_, he⟩
   · rw [he] at h
     have : e' = e := by simpa using h
     rw [← this]; exact hf
@@ -160,11 +166,11 @@ theorem step_fresh (ops : Ops Tree Plan Backup H) (w : World Tree Plan Backup H)
     have := congrArg List.length h
     simp at this
 
-theorem step_rejected (ops : Ops Tree Plan Backup H) (w : World Tree Plan Backup H) (c : Cmd H)
-    (h : (step ops w c).2 = .rejected) : (step ops w c).1 = w := by
+theorem step_rejected (cfg : Cfg) (ops : Ops Tree Plan Backup H) (w : World Tree Plan Backup H) (c : Cmd H)
+    (h : (step cfg ops w c).2 = .rejected) : (step cfg ops w c).1 = w := by
   cases c with
   | rename s r =>
-    rcases stepRename_cases ops w s r with h' | h' | h'
+    rcases stepRename_cases cfg ops w s r with h' | h' | h'
     · simp [step, h'.1] at h
     · exact h'.2
     · simp [step, h'.1] at h
@@ -174,28 +180,28 @@ theorem step_rejected (ops : Ops Tree Plan Backup H) (w : World Tree Plan Backup
     · exact h'.2
     · simp [step, h'.1] at h
   | redo t =>
-    rcases stepRedo_cases ops w t with h' | h' | h'
+    rcases stepRedo_cases cfg ops w t with h' | h' | h'
     · simp [step, h'.1] at h
     · exact h'.2
     · simp [step, h'.1] at h
   | tick => simp [step] at h
 
-theorem undo_ok (ops : Ops Tree Plan Backup H) (w : World Tree Plan Backup H) (t : Target H)
-    (h : (step ops w (.undo t)).2 = .ok) :
+theorem undo_ok (cfg : Cfg) (ops : Ops Tree Plan Backup H) (w : World Tree Plan Backup H) (t : Target H)
+    (h : (step cfg ops w (.undo t)).2 = .ok) :
     ∃ i e, resolve w.entries true t = some i ∧ findEntry w.entries i = some e ∧ e.revertOf = none ∧
       hasRevertOf w.entries i = false ∧
-      (step ops w (.undo t)).1.entries = w.entries ++ [{ id := .revert i w.clock, revertOf := some i }] := by
+      (step cfg ops w (.undo t)).1.entries = w.entries ++ [{ id := .revert i w.clock, revertOf := some i }] := by
   rcases stepUndo_cases ops w t with h' | h' | h'
   · obtain ⟨_, i, e, a, b, c, d, _, f⟩ := h'
     exact ⟨i, e, a, b, c, d, f⟩
   · simp [step, h'.1] at h
   · simp [step, h'.1] at h
 
-theorem redo_ok (ops : Ops Tree Plan Backup H) (w : World Tree Plan Backup H) (t : Target H)
-    (h : (step ops w (.redo t)).2 = .ok) :
+theorem redo_ok (cfg : Cfg) (ops : Ops Tree Plan Backup H) (w : World Tree Plan Backup H) (t : Target H)
+    (h : (step cfg ops w (.redo t)).2 = .ok) :
     ∃ i, resolve w.entries false t = some i ∧ hasId w.entries i = true ∧ hasRevertOf w.entries i = true ∧
-      (step ops w (.redo t)).1.entries = w.entries ++ [{ id := .redo i w.clock, revertOf := none }] := by
-  rcases stepRedo_cases ops w t with h' | h' | h'
+      (step cfg ops w (.redo t)).1.entries = w.entries ++ [{ id := .redo i w.clock, revertOf := none }] := by
+  rcases stepRedo_cases cfg ops w t with h' | h' | h'
   · obtain ⟨_, i, a, b, c, _, f⟩ := h'
     exact ⟨i, a, b, c, f⟩
   · simp [step, h'.1] at h
@@ -203,44 +209,44 @@ theorem redo_ok (ops : Ops Tree Plan Backup H) (w : World Tree Plan Backup H) (t
 
 -- run-level ---------------------------------------------------------------------------------------
 
-theorem run_prefix (ops : Ops Tree Plan Backup H) (w : World Tree Plan Backup H) (cs : List (Cmd H)) :
-    w.entries <+: (run ops w cs).1.entries := by
+theorem run_prefix (cfg : Cfg) (ops : Ops Tree Plan Backup H) (w : World Tree Plan Backup H) (cs : List (Cmd H)) :
+    w.entries <+: (run cfg ops w cs).1.entries := by
   induction cs generalizing w with
   | nil => simp [run]
   | cons c cs ih =>
     simp only [run]
-    have h1 : w.entries <+: (step ops w c).1.entries := by
-      rcases step_cases ops w c with ⟨_, e, he, _⟩ | ⟨_, he⟩
+    have h1 : w.entries <+: (step cfg ops w c).1.entries := by
+      rcases step_cases cfg ops w c with ⟨_, e, he, _⟩ | ⟨_, he⟩
       · rw [he]; exact List.prefix_append _ _
       · rw [he]; exact List.prefix_refl _
-    exact List.IsPrefix.trans h1 (ih (step ops w c).1)
+    exact List.IsPrefix.trans h1 (ih (step cfg ops w c).1)
 
-theorem run_length (ops : Ops Tree Plan Backup H) (w : World Tree Plan Backup H) (cs : List (Cmd H)) :
-    (run ops w cs).1.entries.length = w.entries.length + (run ops w cs).2.count .ok := by
+theorem run_length (cfg : Cfg) (ops : Ops Tree Plan Backup H) (w : World Tree Plan Backup H) (cs : List (Cmd H)) :
+    (run cfg ops w cs).1.entries.length = w.entries.length + (run cfg ops w cs).2.count .ok := by
   induction cs generalizing w with
   | nil => simp [run]
   | cons c cs ih =>
     simp only [run]
-    rw [ih (step ops w c).1]
-    rcases step_cases ops w c with ⟨hk, e, he, _⟩ | ⟨hk, he⟩
+    rw [ih (step cfg ops w c).1]
+    rcases step_cases cfg ops w c with ⟨hk, e, he, _⟩ | ⟨hk, he⟩
     · rw [he, hk]; simp; omega
     · rw [he]
-      have : (List.count Outcome.ok ((step ops w c).2 :: (run ops (step ops w c).1 cs).2))
-          = List.count Outcome.ok (run ops (step ops w c).1 cs).2 := by
+      have : (List.count Outcome.ok ((step cfg ops w c).2 :: (run cfg ops (step cfg ops w c).1 cs).2))
+          = List.count Outcome.ok (run cfg ops (step cfg ops w c).1 cs).2 := by
         rw [List.count_cons]; simp [hk]
       rw [this]
 
 theorem hasId_false_iff (es : List (Entry H)) (i : EId H) : hasId es i = false ↔ i ∉ es.map (·.id) := by
   simp [hasId]
 
-theorem run_nodup (ops : Ops Tree Plan Backup H) (w : World Tree Plan Backup H) (cs : List (Cmd H))
-    (h : (w.entries.map (·.id)).Nodup) : ((run ops w cs).1.entries.map (·.id)).Nodup := by
+theorem run_nodup (cfg : Cfg) (ops : Ops Tree Plan Backup H) (w : World Tree Plan Backup H) (cs : List (Cmd H))
+    (h : (w.entries.map (·.id)).Nodup) : ((run cfg ops w cs).1.entries.map (·.id)).Nodup := by
   induction cs generalizing w with
   | nil => simpa [run] using h
   | cons c cs ih =>
     simp only [run]
     apply ih
-    rcases step_cases ops w c with ⟨_, e, he, hf⟩ | ⟨_, he⟩
+    rcases step_cases cfg ops w c with ⟨_, e, he, hf⟩ | ⟨_, he⟩
     · rw [he, List.map_append, List.nodup_append]
       refine ⟨h, by simp, ?_⟩
       intro a ha b hb
@@ -291,6 +297,75 @@ theorem fresh_of_injective (ops : Ops Tree Plan Backup H)
   · rw [hk] at hid
     have := hinj _ _ _ _ (EId.plan.inj hid)
     exact hne this
+
+-- the two repairs (current code) -----------------------------------------------------------------------
+
+/-- c3d511b: with the early check, an id that is already present is refused with the world untouched -/
+theorem applyWithId_dup_current (ops : Ops Tree Plan Backup H) (w : World Tree Plan Backup H) (id : EId H) (p : Plan)
+    (hd : hasId w.entries id = true) : applyWithId .current ops w id p = (w, .rejected) := by
+  unfold applyWithId
+  simp [hd, Cfg.current]
+
+/-- … so the only way `apply_plan` fails after a change is a partial apply of the tree side -/
+theorem applyWithId_failed_current (ops : Ops Tree Plan Backup H) (w : World Tree Plan Backup H) (id : EId H) (p : Plan)
+    (h : (applyWithId .current ops w id p).2 = .failed) : ∃ t', ops.apply w.tree p = .partly t' := by
+  unfold applyWithId at h
+  by_cases hd : hasId w.entries id = true
+  · simp [hd, Cfg.current] at h
+  · have hd' : hasId w.entries id = false := by simpa using hd
+    cases ha : ops.apply w.tree p with
+    | rejected => simp [ha, hd', Cfg.current] at h
+    | partly t' => exact ⟨t', rfl⟩
+    | ok t' b => simp [ha, hd', Cfg.current, addEntry] at h
+
+theorem stepRename_dup_current (ops : Ops Tree Plan Backup H) (w : World Tree Plan Backup H) (s r : Bytes)
+    (hd : hasId w.entries (.plan (ops.hash (s ++ r) w.clock)) = true) :
+    (stepRename .current ops w s r).1 = w ∧ (stepRename .current ops w s r).2 ≠ .ok := by
+  unfold stepRename
+  by_cases he : ops.isEmpty (ops.scan w.tree s r) = true
+  · simp [he]
+  · simp [he, applyWithId_dup_current ops w _ _ hd]
+
+theorem stepRename_failed_current (ops : Ops Tree Plan Backup H) (w : World Tree Plan Backup H) (s r : Bytes)
+    (h : (stepRename .current ops w s r).2 = .failed) :
+    ∃ t', ops.apply w.tree (ops.scan w.tree s r) = .partly t' := by
+  unfold stepRename at h
+  by_cases he : ops.isEmpty (ops.scan w.tree s r) = true
+  · simp [he] at h
+  · simp only [he] at h
+    exact applyWithId_failed_current ops w _ _ h
+
+/-- 07a4584: an id that has a redo entry is refused -/
+theorem stepRedo_redone_current (ops : Ops Tree Plan Backup H) (w : World Tree Plan Backup H) (t : Target H) (i : EId H)
+    (hr : resolve w.entries false t = some i) (h : hasRedoOf w.entries i = true) :
+    stepRedo .current ops w t = (w, .rejected) := by
+  unfold stepRedo
+  simp only [hr]
+  by_cases h1 : hasId w.entries i = true
+  · by_cases h2 : hasRevertOf w.entries i = true
+    · simp [h1, h2, h, Cfg.current]
+    · simp [h1, h2]
+  · simp [h1]
+
+theorem stepRedo_ok_current (ops : Ops Tree Plan Backup H) (w : World Tree Plan Backup H) (t : Target H)
+    (h : (stepRedo .current ops w t).2 = .ok) :
+    ∃ i, resolve w.entries false t = some i ∧ hasRedoOf w.entries i = false ∧
+      hasRedoOf (stepRedo .current ops w t).1.entries i = true := by
+  rcases stepRedo_cases .current ops w t with h' | h' | h'
+  · obtain ⟨_, i, hr, _, _, _, he⟩ := h'
+    refine ⟨i, hr, ?_, ?_⟩
+    · cases hh : hasRedoOf w.entries i with
+      | false => rfl
+      | true => rw [stepRedo_redone_current ops w t i hr hh] at h; cases h
+    · rw [he]; simp [hasRedoOf, isRedoOf]
+  · rw [h'.1] at h; cases h
+  · rw [h'.1] at h; cases h
+
+theorem hasRedoOf_prefix (es es' : List (Entry H)) (i : EId H) (hp : es <+: es') (h : hasRedoOf es i = true) :
+    hasRedoOf es' i = true := by
+  obtain ⟨t, rfl⟩ := hp
+  simp [hasRedoOf, List.any_append] at *
+  exact Or.inl h
 
 end
 end History
